@@ -29,6 +29,24 @@ type rsrc struct{ src }
 
 func (s *rsrc) Reset() error { s.idx = 0; return nil }
 
+// gsrc is an input over a "live collection" whose last element disappears between HasNext and Next: the
+// Iterator contract allows HasNext()==true followed by Next()==(zero,false). The ghost contributes nothing.
+type gsrc struct {
+	src
+	ghostUsed bool
+}
+
+func (s *gsrc) HasNext() bool { return s.idx < len(s.s) || !s.ghostUsed }
+func (s *gsrc) Next() (int, bool) {
+	if s.idx < len(s.s) {
+		s.idx++
+		return s.s[s.idx-1], true
+	}
+	s.ghostUsed = true
+	return 0, false
+}
+func (s *gsrc) Reset() error { s.idx, s.ghostUsed = 0, false; return nil }
+
 type selector struct {
 	name string
 	f    func(a, b int) bool
@@ -54,6 +72,7 @@ type sys struct {
 	s1, s2 *src
 	p1, p2 int
 	dead   bool // after a failed Reset nothing more is specified
+	g      *gsrc
 }
 
 func newSys(c cfg) *sys {
@@ -73,6 +92,16 @@ func newSys(c cfg) *sys {
 	case 3:
 		r1, r2 := &src{s: c.a}, &rsrc{src{s: c.b}}
 		s.s1, s.s2 = r1, &r2.src
+		i1, i2 = r1, r2
+	case 4:
+		r1, r2 := &gsrc{src: src{s: c.a}}, &rsrc{src{s: c.b}}
+		s.s1, s.s2 = &r1.src, &r2.src
+		s.g = r1
+		i1, i2 = r1, r2
+	case 5:
+		r1, r2 := &rsrc{src{s: c.a}}, &gsrc{src: src{s: c.b}}
+		s.s1, s.s2 = &r1.src, &r2.src
+		s.g = r2
 		i1, i2 = r1, r2
 	}
 	s.m.Init(selectors[c.sel].f, i1, i2)
@@ -108,6 +137,14 @@ func (s *sys) apply(o byte) (sig, detail string) {
 			return "hasnext-not-idempotent", fmt.Sprintf("HasNext()=%v then %v", g1, g2)
 		}
 		if g1 != want {
+			if s.g != nil && g1 && !want {
+				// documented imparity: the input claimed an element that vanished; HasNext may have been true at
+				// that instant. It must not stay true: the next HasNext/Next sees the end.
+				if s.m.HasNext() {
+					return "hasnext-ghost", "HasNext() stays true although the vanished element was already reported missing"
+				}
+				return "", ""
+			}
 			return "hasnext", fmt.Sprintf("HasNext()=%v, reference merge has next=%v (p1=%d p2=%d)", g1, want, s.p1, s.p2)
 		}
 	case 'N':
@@ -118,7 +155,7 @@ func (s *sys) apply(o byte) (sig, detail string) {
 		}
 	case 'R':
 		err := s.m.Reset()
-		if s.c.kind >= 2 {
+		if s.c.kind == 2 || s.c.kind == 3 {
 			if err == nil {
 				return "reset-nonresettable", "Reset returned nil although an input cannot be reset"
 			}
@@ -139,7 +176,11 @@ func (s *sys) key() string {
 	if s.s1 != nil {
 		i1, i2 = s.s1.idx, s.s2.idx
 	}
-	return fmt.Sprintf("%d %v %v %d %d %d %d %v", st, l1, l2, i1, i2, s.p1, s.p2, s.dead)
+	gh := false
+	if s.g != nil {
+		gh = s.g.ghostUsed
+	}
+	return fmt.Sprintf("%d %v %v %d %d %d %d %v %v", st, l1, l2, i1, i2, s.p1, s.p2, s.dead, gh)
 }
 
 func seqs(maxLen int) [][]int {
@@ -172,7 +213,7 @@ func main() {
 	for _, a := range ss {
 		for _, b := range ss {
 			for sel := range selectors {
-				for kind := 0; kind < 4; kind++ {
+				for kind := 0; kind < 6; kind++ {
 					if kind >= 1 && (len(a) > 2 || len(b) > 2) && !run.Thorough() {
 						continue
 					}
@@ -214,6 +255,6 @@ done:
 	run.Finish(ev.Coverage{
 		"states": states, "transitions": trans, "traces_validated_against_impl": trans, "samples": samples.List,
 		"exhaustive": fix, "fixpoint": fix, "configurations": cfgs,
-		"rule": fmt.Sprintf("for every pair of input sequences of length <= %d over {1,2,3} (sorted and unsorted), every selector in {<, <=, always-first, always-second, >} and every source kind (harness iterators, WrapIntSlice, first/second input not resettable): BFS over all call patterns of {HasNext(x2), Next, Reset} to a fixpoint of (mixer selector state, look-ahead flags, source positions, model positions); oracle: two-pointer reference merge, HasNext idempotent and equal to the ok of the following Next, Reset restarts", maxLen),
+		"rule": fmt.Sprintf("for every pair of input sequences of length <= %d over {1,2,3} (sorted and unsorted), every selector in {<, <=, always-first, always-second, >} and every source kind (harness iterators, WrapIntSlice, first/second input not resettable, first/second input whose last element vanishes between HasNext and Next): BFS over all call patterns of {HasNext(x2), Next, Reset} to a fixpoint of (mixer selector state, look-ahead flags, source positions, model positions); oracle: two-pointer reference merge, HasNext idempotent and equal to the ok of the following Next, Reset restarts", maxLen),
 	})
 }
